@@ -593,3 +593,8 @@ _more("C27", "Added (C27-write-cb): evhttp_write_buffer replaces the connection'
 _more("C30", "Added (C30-glob): prefix_suffix_match evaluated on 14 patterns x 14 host names x case folding equals shell matching with '*' (found: a '*' at the end of a pattern matched nothing; fixed).",
       "evaluation of the extracted recursive matcher on abstract strings against a reference matcher (K6)")
 _more("C44", "Added (C44-peer): the in/out address length is set to the size of the address buffer again between two accepts, and the callback gets that buffer and the length accept wrote.")
+_more("C35", "Added (C35-truncate-udp-only): the truncation decision of evdns_server_request_format_response over transport x advertised UDP size x encoded length: TC and the cut apply iff the "
+             "client came over UDP and the reply is longer than it can take.")
+_more("C39", "Added (C39-inflight-table): the in-flight request table's pointer and length are stored back to back (no resolver code looks at either in between) and max-inflight re-files every "
+             "request into the new table modulo the new length.")
+_more("C06", "The table index may be computed by a helper function: it is then evaluated with C integer types (a narrow temporary truncates) for all 512 combinations.")
